@@ -250,6 +250,31 @@ def main(run):
                     break
         run.count("long-stream-updates", long_n)
         run.nontriv(("c10-long", rep, run.shard[0]))
+    # ---- several smoothing trackers with DIFFERENT alphas alive side by side, the later ones constructed while the first is in
+    # use (and trackers of the other class in between): each keeps its own closed form
+    for rep in range(6 if not thorough else 30):
+        als = [Q(rnd.randrange(1, 1000), 1000) for _ in range(3)] if rep % 2 == 0 else [rnd.choice([0.5, 0.25, 0.125, 0.75]) for _ in range(3)]
+        trs, hist = [ExponentialSmoothingTracker(als[0])], [[]]
+        n = rnd.randrange(6, 30)
+        for i in range(n):
+            if i in (2, 4):
+                WelfordTracker().update(Q(1))
+                trs.append(ExponentialSmoothingTracker(als[len(trs)]))
+                hist.append([])
+            for j, tr in enumerate(trs):
+                v = Q(rnd.randrange(-50, 50), 4)
+                tr.update(v)
+                hist[j].append(v)
+            for j, tr in enumerate(trs):
+                fa = fr(als[j])
+                m = len(hist[j])
+                es = sum((fa * (1 - fa) ** (m - 1 - jx) * fr(hist[j][jx]) for jx in range(m)), Fraction(0))
+                run.ok(kind="side-by-side-alphas")
+                if not (fr(tr.get()) == es and tr.N == m):
+                    run.violation("smoothing-closed-form", f"tracker #{j} (alpha={als[j]!r}) of {len(trs)} trackers with alphas {als[:len(trs)]!r} alive side by side: "
+                                                           f"after {m} updates {tr.get()!r} != {es} (N={tr.N})", {"alphas": als, "pattern": "side-by-side", "updates": m})
+                    break
+        run.nontriv(("c10-side", rep, run.shard[0]))
     # ---- float / NumPy scalar inputs against the exact result
     def mk(typ, rnd_):
         if typ in ("uint8",):
